@@ -16,7 +16,8 @@ each replayed against the real code from corpus/C04/):
                         encoding objects are never looked at;
   * exclInnerNode      sibling keys of a `$ref` inside a schema are never looked at;
   * exclExternalNode   an example that gives only `externalValue` is validated as the value `null`
-                        (a conforming document is rejected).
+                        (a conforming document is rejected);
+  * exclHeaderExampleNode  the example / examples of a header object are never checked against its schema.
 -/
 import KinModel.Lemmas.C04Reach
 import KinModel.Lemmas.C04Witness
@@ -48,7 +49,13 @@ theorem code_facts :
       validate codeTable { exDisabled := true } W.dDeepDefault = false ∧
       validate codeTable { patDisabled := true, fmtEnabled := true, extProhibited := true } W.dDeepDefault = false) ∧
     (validate codeTable {} W.dMissing = false ∧ specVerdict {} W.dMissing = .reject ∧
-      validate codeTable {} W.d28aOK = true ∧ specVerdict {} W.d28aOK = .accept) := by
+      validate codeTable {} W.d28aOK = true ∧ specVerdict {} W.d28aOK = .accept) ∧
+    (validate codeTable {} W.dHeaderExample = true ∧ specVerdict {} W.dHeaderExample = .reject ∧
+      anyNode (exclHeaderExampleNode {}) W.dHeaderExample = true ∧
+      specVerdict { exDisabled := true } W.dHeaderExample = .accept ∧
+      validate codeTable {} W.dHeaderExampleOK = true ∧ specVerdict {} W.dHeaderExampleOK = .accept) ∧
+    (validate codeTable {} W.dSecondOp = false ∧ specVerdict {} W.dSecondOp = .reject ∧
+      anyNode (exclNode knownUncovered {}) W.dSecondOp = false) := by
   decide +kernel
 
 /-- every `Validate` method, every child call and every option guard of the code was read and is
@@ -87,6 +94,16 @@ theorem style_defaults_are_oas_defaults :
     (["path", "query", "header", "cookie"].all fun l =>
       (Gen.paramStyleDefaults.lookup l == some (smOf { strs := [("in", l)] }))) = true ∧
     Gen.paramStyleDefaults.length = 4 := by
+  decide +kernel
+
+/-- the (style, explode) disjunction of `Header.Validate` and the defaults of `Header.SerializationMethod`,
+regenerated from the source, say what the model's header check says: the effective style (`simple` when
+none is given) must be `simple`, whatever `explode` is -/
+theorem header_style_table_is_oas_table :
+    Gen.headerStyleDefault = ("simple", false) ∧
+    (["form", "simple", "label", "matrix", "spaceDelimited", "pipeDelimited", "deepObject", "weird"].all fun s =>
+      [true, false].all fun e => Gen.headerStyles.contains (s, e) == decide (s = "simple")) = true ∧
+    Gen.headerStyles.all (fun x => x.1 == "simple") = true := by
   decide +kernel
 
 /-! ### The descent -/
@@ -265,6 +282,15 @@ theorem witness_external_example :
       anyNode (exclExternalNode {}) W.dExternal = true ∧
       validate codeTable { exDisabled := true } W.dExternal = true := code_facts.2.2.2.2.2.2.2.1
 
+/-- a header whose example violates its schema is accepted, the property rejects it (and accepts it once
+examples validation is switched off); the matching example is accepted by both -/
+theorem witness_header_example :
+    validate codeTable {} W.dHeaderExample = true ∧ specVerdict {} W.dHeaderExample = .reject ∧
+      anyNode (exclHeaderExampleNode {}) W.dHeaderExample = true ∧
+      specVerdict { exDisabled := true } W.dHeaderExample = .accept ∧
+      validate codeTable {} W.dHeaderExampleOK = true ∧ specVerdict {} W.dHeaderExampleOK = .accept :=
+  code_facts.2.2.2.2.2.2.2.2.2.2.2.1
+
 /-! ### Non-vacuity -/
 
 /-- a conforming document outside every exclusion class: accepted, by model and specification -/
@@ -283,6 +309,11 @@ example : specVerdict {} W.dDeepDefault = .reject ∧ anyNode (exclNode knownUnc
 
 /-- the template rule does fire when the counts differ, and the benign twin of #28 passes -/
 example : validate codeTable {} W.dMissing = false ∧ specVerdict {} W.dMissing = .reject ∧
-    validate codeTable {} W.d28aOK = true ∧ specVerdict {} W.d28aOK = .accept := code_facts.2.2.2.2.2.2.2.2.2.2
+    validate codeTable {} W.d28aOK = true ∧ specVerdict {} W.d28aOK = .accept := code_facts.2.2.2.2.2.2.2.2.2.2.1
+
+/-- the template rule is applied to every operation of a path item separately: `get` declares the
+variable, `put` does not — rejected, outside every exclusion class -/
+example : validate codeTable {} W.dSecondOp = false ∧ specVerdict {} W.dSecondOp = .reject ∧
+    anyNode (exclNode knownUncovered {}) W.dSecondOp = false := code_facts.2.2.2.2.2.2.2.2.2.2.2.2
 
 end KinModel.DocValidate
